@@ -44,8 +44,8 @@ int vnadata_set_dprecision(vnadata_t *vdp, int precision)
 	errno = EINVAL;
 	return -1;
     }
-    if (precision < 1) {
-	_vnadata_error(vdip, VNAERR_USAGE, "vnadata_set_fprecision: "
+    if (precision < 1 || precision > VNADATA_MAX_PRECISION) {
+	_vnadata_error(vdip, VNAERR_USAGE, "vnadata_set_dprecision: "
 		"invalid precision: %d", precision);
 	return -1;
     }
